@@ -42,7 +42,7 @@ ASSUMPTIONS = [
     "hashseed_independence runs the machine natively in child processes (a process boundary cannot be traced); the solver only chooses the seed - the values 0..16 (64) are a sample of the seed space, not all of it",
     "generated identifiers (uuid actor ids, timer keys): DT spawns nothing; their independence is outside this obligation",
 ]
-WALL_BUDGET = {"quick": 600.0, "thorough": 3000.0}
+WALL_BUDGET = {"quick": 900.0, "thorough": 3000.0}
 
 EVENTS = ["GO", "G1", "G3", "LEAVE", "BACK", "BACKS", "BACK2", "RE", "TICK"]
 _REF: Dict[Tuple[str, ...], Any] = {}
